@@ -52,6 +52,21 @@ func init() {
 	} {
 		ext(n, func(fr *frame, a []value) value { return "<proto>" })
 	}
+	// proto.Clone: deep copy of the message object graph
+	clone := func(fr *frame, a []value) value {
+		it := a[0].(iface)
+		if it.t == nil {
+			return it
+		}
+		g := newGraph()
+		g.scan(it.v, fr.i.sharedGraph)
+		c := copyGraph(g)
+		return iface{t: it.t, v: c.tr(it.v)}
+	}
+	ext("github.com/golang/protobuf/proto.Clone", clone)
+	ext("github.com/gogo/protobuf/proto.Clone", clone)
+	ext("google.golang.org/protobuf/proto.Clone", clone)
+
 	// status.Code(err): a harness transport error is not a grpc status => codes.Unknown (2);
 	// nil => codes.OK (0)
 	ext("google.golang.org/grpc/status.Code", func(fr *frame, a []value) value {
